@@ -32,3 +32,5 @@ def check(ctx):
     step.sv_initial_hamiltonian(ctx)
     once.filter_tolerance(ctx)
     drivers.observable_dispatch(ctx)
+    drivers.normalised_copies(ctx)
+    drivers.evaluation_time_filter(ctx)
